@@ -1008,6 +1008,39 @@ Proof.
     + apply filter_In in H. destruct H as [H _]. left. rewrite <- (firstn_skipn hi l). apply in_or_app. right. exact H.
 Qed.
 
+(* the extended-slice form: the members of the produced list are old members or assigned values *)
+Lemma set_at_incl : forall (l : list id) p v x, In x (set_at p v l) -> In x l \/ x = v.
+Proof.
+  induction l as [|y l IH]; intros p v x H; [left; destruct p; exact H|].
+  destruct p as [|p]; cbn [set_at] in H.
+  - destruct H as [H|H]; [right; symmetry; exact H|left; right; exact H].
+  - destruct H as [H|H]; [left; left; exact H|].
+    destruct (IH p v x H) as [H1|H1]; [left; right; exact H1|right; exact H1].
+Qed.
+
+Lemma set_positions_incl : forall ps vs l x, In x (set_positions l ps vs) -> In x l \/ In x vs.
+Proof.
+  induction ps as [|p ps IH]; intros vs l x H; [left; exact H|].
+  destruct vs as [|v vs]; [left; exact H|]. cbn [set_positions] in H.
+  destruct (IH vs (set_at p v l) x H) as [H1|H1].
+  - destruct (set_at_incl l p v x H1) as [H2|H2]; [left; exact H2|right; left; symmetry; exact H2].
+  - right; right; exact H1.
+Qed.
+
+Lemma keep_last_from_incl : forall new0 ps rest pos x, In x (keep_last_from pos new0 rest ps) -> In x rest.
+Proof.
+  intros new0 ps. induction rest as [|y r IH]; intros pos x H; [exact H|].
+  cbn [keep_last_from] in H. apply in_app_or in H. destruct H as [H|H].
+  - left. destruct (last_assigned new0 ps y) as [q|]; [destruct (Nat.eqb q pos)|];
+      (destruct H as [H|[]]; exact H) || destruct H.
+  - right. apply (IH (S pos) x H).
+Qed.
+
+Lemma assign_ext_incl : forall l ps vs x, In x (assign_ext l ps vs) -> In x l \/ In x vs.
+Proof.
+  intros l ps vs x H. unfold assign_ext in H. apply keep_last_from_incl in H. apply set_positions_incl in H. exact H.
+Qed.
+
 (* assignment: hooks for the leavers, hooks for the enterers, then the list is stored *)
 Lemma ml_assign_MI : forall w ir new, ModParOK w -> kindof w ir = KIR ->
   (forall v, In v new -> ~ In v (kids w ir) -> kindof w v = KMod) ->
@@ -1031,13 +1064,13 @@ Qed.
 Lemma mod_ops_MI : forall w known o, ModParOK w -> op_okb w known o = true ->
   match o with
   | OModAppend _ _ | OModInsert _ _ _ | OModExtend _ _ | OModRemove _ _ | OModPop _ _ | OModDelItem _ _
-  | OModDelSlice _ _ _ | OModSetItem _ _ _ | OModSetSlice _ _ _ _ | OModClear _ | OModReverse _ => MI w (step' w o)
+  | OModDelSlice _ _ _ | OModSetItem _ _ _ | OModSetSlice _ _ _ _ | OModSetExt _ _ _ _ _ | OModClear _ | OModReverse _ => MI w (step' w o)
   | _ => True
   end.
 Proof.
   intros w known o M G. assert (R := MI_refl w M).
   destruct o as [n k u a s f nm p | c p | p fk m args | ir v | ir i v | ir vs | ir v | ir i | ir i | ir a b
-              | ir i v | ir a b vs | ir | ir | bi a | n s | b o' | s nm | s p | bi k e | bi k | bi k | bi
+              | ir i v | ir a b vs | ir a b c vs | ir | ir | bi a | n s | b o' | s nm | s p | bi k e | bi k | bi k | bi
               | bi k e | bi kvs | bi | bi kvs | n];
     try exact I; rewrite step'_ret; cbn [step]; cbn [op_okb] in G.
   - (* append *) apply andb_true_iff in G. destruct G as [Gi Gv]. apply mod_append_mq; assumption.
@@ -1065,6 +1098,14 @@ Proof.
     pose proof (forallb_is_k w vs KMod Gv) as Kv. cbv zeta.
     apply ret_flagged; [exact R|]. apply ml_assign_MI; [exact M|exact Gi|].
     intros x Hx Hnx. apply assign_slice_incl in Hx. destruct Hx as [Hx|Hx]; [contradiction|].
+    apply Kv. exact Hx.
+  - (* setext *) apply andb_true_iff in G. destruct G as [G _]. apply andb_true_iff in G. destruct G as [Gi Gv].
+    apply is_k_kind in Gi. pose proof (forallb_is_k w vs KMod Gv) as Kv. cbv zeta.
+    destruct (SeqOps.py_slice_indices a b c (length (kids w ir))) as [[[s e] st]|er]; [|exact R].
+    destruct (st =? 1); [exact R|].
+    destruct (negb (Nat.eqb (length vs) (length (SeqOps.py_range_positions s e st (length (kids w ir)))))); [exact R|].
+    apply ret_flagged; [exact R|]. apply ml_assign_MI; [exact M|exact Gi|].
+    intros x Hx Hnx. apply assign_ext_incl in Hx. destruct Hx as [Hx|Hx]; [contradiction|].
     apply Kv. exact Hx.
   - (* clear *) apply is_k_kind in G.
     pose proof (fold_remove_hook_MI w ir (rev (kids w ir)) M) as H1.
@@ -1361,7 +1402,7 @@ Proof.
   pose proof (forest_modpar w known F) as MP.
   pose proof (mod_ops_MI w known o MP G) as MO.
   destruct o as [n k u a s f nm p | c p | p fk m args | ir v | ir i v | ir vs | ir v | ir i | ir i | ir a b
-              | ir i v | ir a b vs | ir | ir | bi a | n s | b o' | s nm | s p | bi k e | bi k | bi k | bi
+              | ir i v | ir a b vs | ir a b c vs | ir | ir | bi a | n s | b o' | s nm | s p | bi k e | bi k | bi k | bi
               | bi k e | bi kvs | bi | bi kvs | n];
     try (apply (mq_good w _ (proj1 MO) GD)); clear MO.
   - (* ONew *) eapply new_good; eassumption.
@@ -1805,7 +1846,7 @@ Lemma seqr_step : forall w1 w2 o, seq w1 w2 -> is_touch o = false -> seqr (step 
 Proof.
   intros w1 w2 o H T.
   destruct o as [n k u a s f nm p | c p | p fk m args | ir v | ir i v | ir vs | ir v | ir i | ir i | ir a b
-              | ir i v | ir a b vs | ir | ir | bi a | n s | b o' | s nm | s p | bi k e | bi k | bi k | bi
+              | ir i v | ir a b vs | ir a b c vs | ir | ir | bi a | n s | b o' | s nm | s p | bi k e | bi k | bi k | bi
               | bi k e | bi kvs | bi | bi kvs | n]; cbn [step]; try discriminate T.
   - (* ONew *) cbv zeta. apply seqr_ok.
     set (x := {| nk := k; nuuid := u; npar := None; naddr := a; nsize := s; noff := f; nname := nm; npay := p |}).
@@ -1834,6 +1875,11 @@ Proof.
     destruct (norm_index i (length (kids w2 ir))) as [k|]; [|apply seqr_err].
     apply seqr_flagged, seqp_ml_assign, H.
   - (* setslice *) rewrite (seq_kids _ _ H). cbv zeta.
+    apply seqr_flagged, seqp_ml_assign, H.
+  - (* setext *) rewrite (seq_kids _ _ H). cbv zeta.
+    destruct (SeqOps.py_slice_indices a b c (length (kids w2 ir))) as [[[s e] st]|er]; [|apply seqr_err].
+    destruct (st =? 1); [apply seqr_err|].
+    destruct (negb (Nat.eqb (length vs) (length (SeqOps.py_range_positions s e st (length (kids w2 ir)))))); [apply seqr_err|].
     apply seqr_flagged, seqp_ml_assign, H.
   - (* clear *) rewrite (seq_kids _ _ H).
     assert (HP : seqp (fold_ok (fun w v => ml_remove_hook w ir v) (rev (kids w2 ir)) w1)
